@@ -2178,7 +2178,10 @@ impl<'a, W: Write + 'a> Serializer<'a, W> {
                         file_version: version,
                     }; //Savefile always serializes most recent version. Only savefile-abi ever writes old formats.
                     data.serialize(&mut serializer)?;
-                    compressed_writer.flush()?;
+                    // Finish the stream explicitly: the encoder's Drop would also write the
+                    // end-of-stream block, but silently discards any error from the writer.
+                    compressed_writer.try_finish()?;
+                    compressed_writer.get_mut().flush()?;
                     return Ok(());
                 }
                 #[cfg(not(feature = "bzip2"))]
